@@ -147,10 +147,10 @@ Proof.
 Qed.
 
 Section Sets.
-Variables (f : fmap) (pd pr mk : list wmsg) (nx : positive).
+Variables (g : Z) (f : fmap) (pd pr mk : list wmsg) (nx : positive).
 
 (* one marker un-done, message still pending: it stays pending, now cancelled *)
-Lemma unmark0_sets o : Loc 0 f pd pr (o :: mk) nx -> Mk0 f pd (o :: mk) -> fl f o = 0%N ->
+Lemma unmark0_sets o : Loc g f pd pr (o :: mk) nx -> Mk0 f pd (o :: mk) -> fl f o = 0%N ->
   let f' := flag_set f (wm_id o) 1 in
   (forall y, Live f' pd y <-> Live f pd y) /\
   (forall i, Dm f' pd pr i <-> Dm f pd pr i \/ i = wm_id o) /\ Mk0 f' pd mk /\ (forall L, No5 f L -> No5 f' L).
@@ -183,12 +183,12 @@ Proof.
 Qed.
 
 (* one marker un-done, message already processed: it is now cancelled where it is, and its notice is queued (not part of the pool) *)
-Lemma unmark2_sets o : Loc 0 f pd pr (o :: mk) nx -> Mk0 f pd (o :: mk) -> fl f o = 2%N ->
+Lemma unmark2_sets o : Loc g f pd pr (o :: mk) nx -> Mk0 f pd (o :: mk) -> fl f o = 2%N -> (g <= Z.of_N (tm o))%Z ->
   let f' := flag_set f (wm_id o) 3 in
   (forall y, Live f' (o :: pd) y <-> Live f pd y) /\
   (forall i, Dm f' (o :: pd) pr i <-> Dm f pd pr i \/ i = wm_id o) /\ Mk0 f' (o :: pd) mk /\ (forall L, No5 f L -> No5 f' L).
 Proof.
-  intros L M0 Hf f'. pose proof (l_body _ _ _ _ _ _ L) as Hb.
+  intros L M0 Hf Hgo f'. pose proof (l_body _ _ _ _ _ _ L) as Hb.
   assert (Hid : forall y, In y (pd ++ pr ++ o :: mk) -> wm_id y = wm_id o -> y = o).
   { intros y Hy E. apply Hb; [exact Hy|rewrite !in_app_iff; cbn; tauto|exact E]. }
   assert (Hopr : In o pr).
@@ -218,7 +218,7 @@ Proof.
 Qed.
 
 (* one processed message un-done, not cancelled: back into the pool *)
-Lemma unproc2_sets y0 : Loc 0 f pd (y0 :: pr) mk nx -> Mk0 f pd mk -> fl f y0 = 2%N ->
+Lemma unproc2_sets y0 : Loc g f pd (y0 :: pr) mk nx -> Mk0 f pd mk -> fl f y0 = 2%N ->
   let f' := flag_set f (wm_id y0) 0 in
   (forall y, Live f' (y0 :: pd) y <-> Live f pd y \/ y = y0) /\
   (forall i, Dm f' (y0 :: pd) pr i <-> Dm f pd (y0 :: pr) i) /\ Mk0 f' (y0 :: pd) mk /\ (forall L, No5 f L -> No5 f' L).
@@ -252,7 +252,7 @@ Proof.
 Qed.
 
 (* one processed message un-done that was cancelled meanwhile: its queued notice becomes the pool's (cancelled) copy *)
-Lemma unproc3_sets y0 : Loc 0 f pd (y0 :: pr) mk nx -> Mk0 f pd mk -> fl f y0 = 3%N ->
+Lemma unproc3_sets y0 : Loc g f pd (y0 :: pr) mk nx -> Mk0 f pd mk -> fl f y0 = 3%N ->
   let f' := flag_set f (wm_id y0) 1 in
   (forall y, Live f' pd y <-> Live f pd y \/ y = y0) /\
   (forall i, Dm f' pd pr i <-> Dm f pd (y0 :: pr) i) /\ Mk0 f' pd mk /\ (forall L, No5 f L -> No5 f' L).
@@ -283,7 +283,7 @@ Proof.
 Qed.
 
 (* the annihilation of the cancelled processed message whose notice is in hand *)
-Lemma unproc5_sets y0 : Loc 0 f pd (y0 :: pr) mk nx -> Mk0 f pd mk -> fl f y0 = 5%N ->
+Lemma unproc5_sets y0 : Loc g f pd (y0 :: pr) mk nx -> Mk0 f pd mk -> fl f y0 = 5%N ->
   let f' := flag_set f (wm_id y0) 3 in
   (forall y, Live f' pd y <-> Live f pd y) /\
   (forall i, Dm f' pd pr i <-> Dm f pd (y0 :: pr) i /\ i <> wm_id y0) /\ Mk0 f' pd mk /\ (forall L, No5 f L -> No5 f' L).
@@ -311,17 +311,18 @@ Qed.
 End Sets.
 
 (* ---------- send_anti_messages over a list of entries none of which is being annihilated ---------- *)
-Lemma undo_all_sets es : forall w pr mk,
-  Loc 0 (k_flags w) (pend w) (procs_of es ++ pr) (marks_of es ++ mk) (k_next w) ->
+Lemma undo_all_sets g es : forall w pr mk,
+  Loc g (k_flags w) (pend w) (procs_of es ++ pr) (marks_of es ++ mk) (k_next w) ->
   Mk0 (k_flags w) (pend w) (marks_of es ++ mk) -> No5 (k_flags w) (procs_of es) ->
+  (forall o, In (ESent o) es -> (g <= Z.of_N (tm o))%Z) ->
   let w' := fold_left undo_entry es w in
-  Loc 0 (k_flags w') (pend w') pr mk (k_next w') /\
+  Loc g (k_flags w') (pend w') pr mk (k_next w') /\
   (forall y, Live (k_flags w') (pend w') y <-> Live (k_flags w) (pend w) y \/ In y (procs_of es)) /\
   (forall i, Dm (k_flags w') (pend w') pr i <-> Dm (k_flags w) (pend w) (procs_of es ++ pr) i \/ In i (map wm_id (marks_of es))) /\
   Mk0 (k_flags w') (pend w') mk /\ (forall L, No5 (k_flags w) L -> No5 (k_flags w') L) /\ k_next w' = k_next w /\
   (forall y, ~ In (wm_id y) (map wm_id (marks_of es)) -> ~ In (wm_id y) (map wm_id (procs_of es)) -> fl (k_flags w') y = fl (k_flags w) y).
 Proof.
-  induction es as [|e es IH]; intros w pr mk HL M0 N5; cbn [fold_left].
+  induction es as [|e es IH]; intros w pr mk HL M0 N5 Hge; cbn [fold_left].
   - cbn [procs_of marks_of flat_map app map] in *. split; [exact HL|]. split; [intros y; cbn [In]; tauto|]. split; [intros i; cbn [In]; tauto|].
     split; [exact M0|split; [intros L0 H; exact H|split; [reflexivity|intros y _ _; reflexivity]]].
   - destruct e as [o|y0].
@@ -329,16 +330,16 @@ Proof.
       change (marks_of (ESent o :: es) ++ mk) with (o :: (marks_of es ++ mk)) in *.
       change (map wm_id (marks_of (ESent o :: es))) with (wm_id o :: map wm_id (marks_of es)).
       assert (Hstep : let w1 := undo_entry w (ESent o) in
-                Loc 0 (k_flags w1) (pend w1) (procs_of es ++ pr) (marks_of es ++ mk) (k_next w1) /\
+                Loc g (k_flags w1) (pend w1) (procs_of es ++ pr) (marks_of es ++ mk) (k_next w1) /\
                 (forall y, Live (k_flags w1) (pend w1) y <-> Live (k_flags w) (pend w) y) /\
                 (forall i, Dm (k_flags w1) (pend w1) (procs_of es ++ pr) i <-> Dm (k_flags w) (pend w) (procs_of es ++ pr) i \/ i = wm_id o) /\
                 Mk0 (k_flags w1) (pend w1) (marks_of es ++ mk) /\ (forall L, No5 (k_flags w) L -> No5 (k_flags w1) L) /\ k_next w1 = k_next w /\
                 (forall y, wm_id y <> wm_id o -> fl (k_flags w1) y = fl (k_flags w) y)).
-      { destruct (Loc_unmark _ _ _ _ _ _ _ HL ltac:(lia)) as [[Hf HL']|[Hf HL']]; cbn zeta; unfold undo_entry, flag_add; fold (fl (k_flags w) o); rewrite Hf.
-        - destruct (unmark0_sets _ _ _ _ _ o HL M0 Hf) as (S1 & S2 & S3 & S4). cbn. split; [exact HL'|]. split; [exact S1|]. split; [exact S2|]. split; [exact S3|]. split; [exact S4|split; [reflexivity|intros y Hy; apply fl_set_other; exact Hy]].
-        - destruct (unmark2_sets _ _ _ _ _ o HL M0 Hf) as (S1 & S2 & S3 & S4). cbn. split; [exact HL'|]. split; [exact S1|]. split; [exact S2|]. split; [exact S3|]. split; [exact S4|split; [reflexivity|intros y Hy; apply fl_set_other; exact Hy]]. }
+      { destruct (Loc_unmark _ _ _ _ _ _ _ HL (Hge o (or_introl eq_refl))) as [[Hf HL']|[Hf HL']]; cbn zeta; unfold undo_entry, flag_add; fold (fl (k_flags w) o); rewrite Hf.
+        - destruct (unmark0_sets _ _ _ _ _ _ o HL M0 Hf) as (S1 & S2 & S3 & S4). cbn. split; [exact HL'|]. split; [exact S1|]. split; [exact S2|]. split; [exact S3|]. split; [exact S4|split; [reflexivity|intros y Hy; apply fl_set_other; exact Hy]].
+        - destruct (unmark2_sets _ _ _ _ _ _ o HL M0 Hf (Hge o (or_introl eq_refl))) as (S1 & S2 & S3 & S4). cbn. split; [exact HL'|]. split; [exact S1|]. split; [exact S2|]. split; [exact S3|]. split; [exact S4|split; [reflexivity|intros y Hy; apply fl_set_other; exact Hy]]. }
       cbn zeta in Hstep. destruct Hstep as (H1 & H2 & H3 & H4 & H5 & H6 & H7).
-      destruct (IH (undo_entry w (ESent o)) pr mk H1 H4 (H5 _ N5)) as (I1 & I2 & I3 & I4 & I5 & I6 & I7). cbn zeta in *.
+      destruct (IH (undo_entry w (ESent o)) pr mk H1 H4 (H5 _ N5) (fun o' Ho' => Hge o' (or_intror Ho'))) as (I1 & I2 & I3 & I4 & I5 & I6 & I7). cbn zeta in *.
       split; [exact I1|]. split; [intros y; rewrite I2, H2; tauto|]. split; [|split; [exact I4|split; [intros L0 H; apply I5; apply H5; exact H|split; [rewrite I6; exact H6|]]]].
       * intros i. rewrite I3, H3. cbn [In]. split; [intros [[H|H]|H]; auto|intros [H|[H|H]]; auto].
       * intros y Hm Hp. cbn [In] in Hm. rewrite I7 by tauto. apply H7. intro E. apply Hm. left. symmetry. exact E.
@@ -346,18 +347,18 @@ Proof.
       change (procs_of (EProc y0 :: es) ++ pr) with (y0 :: (procs_of es ++ pr)) in *.
       change (procs_of (EProc y0 :: es)) with (y0 :: procs_of es) in *.
       assert (Hstep : let w1 := undo_entry w (EProc y0) in
-                Loc 0 (k_flags w1) (pend w1) (procs_of es ++ pr) (marks_of es ++ mk) (k_next w1) /\
+                Loc g (k_flags w1) (pend w1) (procs_of es ++ pr) (marks_of es ++ mk) (k_next w1) /\
                 (forall y, Live (k_flags w1) (pend w1) y <-> Live (k_flags w) (pend w) y \/ y = y0) /\
                 (forall i, Dm (k_flags w1) (pend w1) (procs_of es ++ pr) i <-> Dm (k_flags w) (pend w) (y0 :: (procs_of es ++ pr)) i) /\
                 Mk0 (k_flags w1) (pend w1) (marks_of es ++ mk) /\ (forall L, No5 (k_flags w) L -> No5 (k_flags w1) L) /\ k_next w1 = k_next w /\
                 (forall y, wm_id y <> wm_id y0 -> fl (k_flags w1) y = fl (k_flags w) y)).
       { destruct (Loc_unproc _ _ _ _ _ _ _ HL) as [[Hf HL']|[[Hf HL']|[Hf HL']]]; cbn zeta; unfold undo_entry, flag_sub; fold (fl (k_flags w) y0); rewrite Hf.
-        - destruct (unproc2_sets _ _ _ _ _ y0 HL M0 Hf) as (S1 & S2 & S3 & S4). cbn. split; [exact HL'|]. split; [exact S1|]. split; [exact S2|]. split; [exact S3|]. split; [exact S4|split; [reflexivity|intros y Hy; apply fl_set_other; exact Hy]].
-        - destruct (unproc3_sets _ _ _ _ _ y0 HL M0 Hf) as (S1 & S2 & S3 & S4). cbn. split; [exact HL'|]. split; [exact S1|]. split; [exact S2|]. split; [exact S3|]. split; [exact S4|split; [reflexivity|intros y Hy; apply fl_set_other; exact Hy]].
+        - destruct (unproc2_sets _ _ _ _ _ _ y0 HL M0 Hf) as (S1 & S2 & S3 & S4). cbn. split; [exact HL'|]. split; [exact S1|]. split; [exact S2|]. split; [exact S3|]. split; [exact S4|split; [reflexivity|intros y Hy; apply fl_set_other; exact Hy]].
+        - destruct (unproc3_sets _ _ _ _ _ _ y0 HL M0 Hf) as (S1 & S2 & S3 & S4). cbn. split; [exact HL'|]. split; [exact S1|]. split; [exact S2|]. split; [exact S3|]. split; [exact S4|split; [reflexivity|intros y Hy; apply fl_set_other; exact Hy]].
         - exfalso. apply (N5 y0 (or_introl eq_refl)). exact Hf. }
       cbn zeta in Hstep. destruct Hstep as (H1 & H2 & H3 & H4 & H5 & H6 & H7).
       assert (N5' : No5 (k_flags (undo_entry w (EProc y0))) (procs_of es)) by (apply H5; intros z Hz; apply N5; right; exact Hz).
-      destruct (IH (undo_entry w (EProc y0)) pr mk H1 H4 N5') as (I1 & I2 & I3 & I4 & I5 & I6 & I7). cbn zeta in *.
+      destruct (IH (undo_entry w (EProc y0)) pr mk H1 H4 N5' (fun o' Ho' => Hge o' (or_intror Ho'))) as (I1 & I2 & I3 & I4 & I5 & I6 & I7). cbn zeta in *.
       split; [exact I1|]. split; [intros y; rewrite I2, H2; cbn [In]; split; [intros [[H|H]|H]; auto|intros [H|[H|H]]; auto]|].
       split; [intros i; rewrite I3, H3; reflexivity|]. split; [exact I4|split; [intros L0 H; apply I5; apply H5; exact H|split; [rewrite I6; exact H6|]]].
       intros y Hm Hp. cbn [map In] in Hp. rewrite I7 by tauto. apply H7. intro E. apply Hp. left. symmetry. exact E.
@@ -741,17 +742,18 @@ Qed.
 
 Lemma rollback_sets w3 l hand gk0 gu :
   all_ok2 p w3 -> l < length (k_lps w3) -> x_hist (get_lp w3 l) = flat (gk0 ++ gu) -> fst (base (get_lp w3 l)) <= length (flat gk0) ->
-  Loc 0 (k_flags w3) (pend w3) (hand ++ allprocs (k_lps w3)) (allmarks (k_lps w3)) (k_next w3) ->
+  Loc (k_gvt w3) (k_flags w3) (pend w3) (hand ++ allprocs (k_lps w3)) (allmarks (k_lps w3)) (k_next w3) ->
   Mk0 (k_flags w3) (pend w3) (allmarks (k_lps w3)) -> No5 (k_flags w3) (map snd gu) ->
+  (forall o, In o (flat_map fst gu) -> (k_gvt w3 <= Z.of_N (tm o))%Z) ->
   let w4 := do_rollback p w3 l (length (flat gk0)) in
   x_hist (get_lp w4 l) = flat gk0 /\ (forall i, i <> l -> get_lp w4 i = get_lp w3 i) /\ base (get_lp w4 l) = base (get_lp w3 l) /\
   x_epoch (get_lp w4 l) = x_epoch (get_lp w3 l) /\ length (k_lps w4) = length (k_lps w3) /\ k_next w4 = k_next w3 /\ k_gvt w4 = k_gvt w3 /\ k_epoch w4 = k_epoch w3 /\
-  Loc 0 (k_flags w4) (pend w4) (hand ++ allprocs (k_lps w4)) (allmarks (k_lps w4)) (k_next w4) /\
+  Loc (k_gvt w3) (k_flags w4) (pend w4) (hand ++ allprocs (k_lps w4)) (allmarks (k_lps w4)) (k_next w4) /\
   (forall y, Live (k_flags w4) (pend w4) y <-> Live (k_flags w3) (pend w3) y \/ In y (map snd gu)) /\
   (forall i, Dm (k_flags w4) (pend w4) (hand ++ allprocs (k_lps w4)) i <-> Dm (k_flags w3) (pend w3) (hand ++ allprocs (k_lps w3)) i \/ In i (map wm_id (flat_map fst gu))) /\
   Mk0 (k_flags w4) (pend w4) (allmarks (k_lps w4)) /\ (forall L, No5 (k_flags w3) L -> No5 (k_flags w4) L).
 Proof.
-  intros Hok Hl Eh Hb HL M0 N5. set (x := get_lp w3 l) in *. set (past := length (flat gk0)).
+  intros Hok Hl Eh Hb HL M0 N5 Hmt. set (x := get_lp w3 l) in *. set (past := length (flat gk0)).
   assert (Ef : firstn past (x_hist x) = flat gk0) by (unfold past; rewrite Eh, flat_app, firstn_app, firstn_all, Nat.sub_diag, firstn_O, app_nil_r; reflexivity).
   assert (Es : skipn past (x_hist x) = flat gu) by (unfold past; rewrite Eh, flat_app, skipn_app, skipn_all, Nat.sub_diag; reflexivity).
   destruct (get_ok2 p w3 l Hok Hl) as [Hlok _]. fold x in Hlok.
@@ -759,7 +761,7 @@ Proof.
   destruct (drop_newer (x_logs x) past) as [|[ref snap] older] eqn:Hd; [congruence|].
   cbn zeta. rewrite (do_rollback_unfold w3 l past ref snap older Hd). fold x. rewrite Ef, Es.
   set (restP := rest (fun y => procs_of (x_hist y)) (k_lps w3) l). set (restM := rest (fun y => marks_of (x_hist y)) (k_lps w3) l).
-  assert (HL1 : Loc 0 (k_flags w3) (pend w3) (procs_of (flat gu) ++ (hand ++ procs_of (flat gk0) ++ restP)) (marks_of (flat gu) ++ (marks_of (flat gk0) ++ restM)) (k_next w3)).
+  assert (HL1 : Loc (k_gvt w3) (k_flags w3) (pend w3) (procs_of (flat gu) ++ (hand ++ procs_of (flat gk0) ++ restP)) (marks_of (flat gu) ++ (marks_of (flat gk0) ++ restM)) (k_next w3)).
   { eapply Loc_perm; [exact HL|apply Permutation_refl| |].
     - unfold allprocs. eapply perm_trans; [apply Permutation_app_head; apply (split_lp (fun y => procs_of (x_hist y)) (k_lps w3) l Hl)|].
       fold (get_lp w3 l). fold x. rewrite Eh, flat_app, procs_app. apply perm_pull2.
@@ -769,7 +771,7 @@ Proof.
   { intros o Ho. apply M0. unfold allmarks. apply (Permutation_in _ (Permutation_sym (split_lp (fun y => marks_of (x_hist y)) (k_lps w3) l Hl))).
     fold (get_lp w3 l). fold x. rewrite Eh, flat_app, marks_app. fold restM. rewrite !in_app_iff in *. tauto. }
   assert (N51 : No5 (k_flags w3) (procs_of (flat gu))) by (rewrite procs_flat; exact N5).
-  destruct (undo_all_sets (flat gu) w3 _ _ HL1 M01 N51) as (U1 & U2 & U3 & U4 & U5 & U6 & U7). cbn zeta in *.
+  destruct (undo_all_sets (k_gvt w3) (flat gu) w3 _ _ HL1 M01 N51 ltac:(intros o Ho; apply Hmt; rewrite <- marks_flat; apply in_marks; exact Ho)) as (U1 & U2 & U3 & U4 & U5 & U6 & U7). cbn zeta in *.
   set (w1 := fold_left undo_entry (flat gu) w3) in *.
   assert (E1 : k_lps w1 = k_lps w3) by apply undo_all_lps.
   destruct (undo_all_frame (flat gu) w3) as (B1 & _ & _ & B4 & _ & _). cbn zeta in B1, B4. fold w1 in B1, B4.
@@ -808,8 +810,9 @@ Proof. apply fold_left_app. Qed.
 (* the rollback started by the cancellation notice of a processed message: its markers, its annihilation, then the later groups *)
 Lemma cancel_sets w3 l gk0 mm m g2 :
   all_ok2 p w3 -> l < length (k_lps w3) -> x_hist (get_lp w3 l) = flat (gk0 ++ (mm, m) :: g2) -> fst (base (get_lp w3 l)) <= length (flat gk0) ->
-  Loc 0 (k_flags w3) (pend w3) (allprocs (k_lps w3)) (allmarks (k_lps w3)) (k_next w3) ->
+  Loc (k_gvt w3) (k_flags w3) (pend w3) (allprocs (k_lps w3)) (allmarks (k_lps w3)) (k_next w3) ->
   Mk0 (k_flags w3) (pend w3) (allmarks (k_lps w3)) -> fl (k_flags w3) m = 5%N -> No5 (k_flags w3) (map snd g2) ->
+  (forall o, In o (mm ++ flat_map fst g2) -> (k_gvt w3 <= Z.of_N (tm o))%Z) ->
   let w4 := do_rollback p w3 l (length (flat gk0)) in
   x_hist (get_lp w4 l) = flat gk0 /\ (forall i, i <> l -> get_lp w4 i = get_lp w3 i) /\ base (get_lp w4 l) = base (get_lp w3 l) /\
   x_epoch (get_lp w4 l) = x_epoch (get_lp w3 l) /\ length (k_lps w4) = length (k_lps w3) /\ k_next w4 = k_next w3 /\ k_gvt w4 = k_gvt w3 /\ k_epoch w4 = k_epoch w3 /\
@@ -818,7 +821,7 @@ Lemma cancel_sets w3 l gk0 mm m g2 :
              ((Dm (k_flags w3) (pend w3) (allprocs (k_lps w3)) i \/ In i (map wm_id mm)) /\ i <> wm_id m) \/ In i (map wm_id (flat_map fst g2))) /\
   Mk0 (k_flags w4) (pend w4) (allmarks (k_lps w4)) /\ (forall L, No5 (k_flags w3) L -> No5 (k_flags w4) L).
 Proof.
-  intros Hok Hl Eh Hb HL M0 Hf5 N5. set (x := get_lp w3 l) in *. set (past := length (flat gk0)). set (gu := (mm, m) :: g2) in *.
+  intros Hok Hl Eh Hb HL M0 Hf5 N5 Hmt. set (x := get_lp w3 l) in *. set (past := length (flat gk0)). set (gu := (mm, m) :: g2) in *.
   assert (Ef : firstn past (x_hist x) = flat gk0) by (unfold past; rewrite Eh, flat_app, firstn_app, firstn_all, Nat.sub_diag, firstn_O, app_nil_r; reflexivity).
   assert (Es : skipn past (x_hist x) = flat gu) by (unfold past; rewrite Eh, flat_app, skipn_app, skipn_all, Nat.sub_diag; reflexivity).
   destruct (get_ok2 p w3 l Hok Hl) as [Hlok _]. fold x in Hlok.
@@ -837,13 +840,13 @@ Proof.
   assert (Emg : marks_of (flat gu) = mm ++ marks_of (flat g2)) by (unfold gu; rewrite !marks_flat; reflexivity).
   assert (Efg : flat gu = map ESent mm ++ EProc m :: flat g2) by (unfold gu; apply flat_cons).
   (* part A: the markers of the cancelled message *)
-  assert (HLA0 : Loc 0 (k_flags w3) (pend w3) (procs_of (map ESent mm) ++ (m :: procs_of (flat g2) ++ prR)) (marks_of (map ESent mm) ++ (marks_of (flat g2) ++ mkR)) (k_next w3)).
+  assert (HLA0 : Loc (k_gvt w3) (k_flags w3) (pend w3) (procs_of (map ESent mm) ++ (m :: procs_of (flat g2) ++ prR)) (marks_of (map ESent mm) ++ (marks_of (flat g2) ++ mkR)) (k_next w3)).
   { rewrite procs_map_sent, marks_map_sent. cbn [app]. eapply Loc_perm; [exact HL|apply Permutation_refl| |].
     - rewrite Epg in PP0. exact PP0.
     - rewrite Emg, <- app_assoc in PM0. exact PM0. }
   assert (M0A0 : Mk0 (k_flags w3) (pend w3) (marks_of (map ESent mm) ++ (marks_of (flat g2) ++ mkR))).
   { rewrite marks_map_sent. intros o Ho. apply M0. apply (Permutation_in _ (Permutation_sym PM0)). rewrite Emg, <- app_assoc. exact Ho. }
-  destruct (undo_all_sets (map ESent mm) w3 _ _ HLA0 M0A0 ltac:(rewrite procs_map_sent; intros y [])) as (A1 & A2 & A3 & A4 & A5 & A6 & A7). cbn zeta in *.
+  destruct (undo_all_sets (k_gvt w3) (map ESent mm) w3 _ _ HLA0 M0A0 ltac:(rewrite procs_map_sent; intros y []) ltac:(intros o Ho; apply Hmt; apply in_or_app; left; apply in_map_iff in Ho; destruct Ho as (z & Ez & Hz); injection Ez as <-; exact Hz)) as (A1 & A2 & A3 & A4 & A5 & A6 & A7). cbn zeta in *.
   set (wA := fold_left undo_entry (map ESent mm) w3) in *.
   rewrite procs_map_sent, marks_map_sent in *. cbn [app] in A3.
   assert (HfA : fl (k_flags wA) m = 5%N).
@@ -853,18 +856,18 @@ Proof.
     subst o. destruct (l_mk _ _ _ _ _ _ HL m ltac:(apply (Permutation_in _ (Permutation_sym PM0)); rewrite Emg; rewrite !in_app_iff; tauto)) as [H|[H _]]; rewrite Hf5 in H; discriminate. }
   (* part B: the annihilation *)
   assert (HstepB : let wB := undo_entry wA (EProc m) in
-            Loc 0 (k_flags wB) (pend wB) (procs_of (flat g2) ++ prR) (marks_of (flat g2) ++ mkR) (k_next wB) /\
+            Loc (k_gvt w3) (k_flags wB) (pend wB) (procs_of (flat g2) ++ prR) (marks_of (flat g2) ++ mkR) (k_next wB) /\
             (forall y, Live (k_flags wB) (pend wB) y <-> Live (k_flags wA) (pend wA) y) /\
             (forall i, Dm (k_flags wB) (pend wB) (procs_of (flat g2) ++ prR) i <-> Dm (k_flags wA) (pend wA) (m :: procs_of (flat g2) ++ prR) i /\ i <> wm_id m) /\
             Mk0 (k_flags wB) (pend wB) (marks_of (flat g2) ++ mkR) /\ (forall L, No5 (k_flags wA) L -> No5 (k_flags wB) L) /\ k_next wB = k_next wA /\
             k_lps wB = k_lps wA /\ k_gvt wB = k_gvt wA /\ k_epoch wB = k_epoch wA).
   { destruct (Loc_unproc _ _ _ _ _ _ _ A1) as [[Hf _]|[[Hf _]|[Hf HL']]]; [rewrite HfA in Hf; discriminate|rewrite HfA in Hf; discriminate|].
     cbn zeta. unfold undo_entry, flag_sub. fold (fl (k_flags wA) m). rewrite Hf.
-    destruct (unproc5_sets _ _ _ _ _ m A1 A4 Hf) as (S1 & S2 & S3 & S4). cbn. repeat (split; [assumption|]). repeat split; reflexivity. }
+    destruct (unproc5_sets _ _ _ _ _ _ m A1 A4 Hf) as (S1 & S2 & S3 & S4). cbn. repeat (split; [assumption|]). repeat split; reflexivity. }
   cbn zeta in HstepB. destruct HstepB as (B1 & B2 & B3 & B4 & B5 & B6 & B7 & B8 & B9). set (wB := undo_entry wA (EProc m)) in *.
   (* part C: the later groups *)
   assert (N5C : No5 (k_flags wB) (procs_of (flat g2))) by (apply B5; apply A5; rewrite procs_flat; exact N5).
-  destruct (undo_all_sets (flat g2) wB _ _ B1 B4 N5C) as (C1 & C2 & C3 & C4 & C5 & C6 & C7). cbn zeta in *.
+  destruct (undo_all_sets (k_gvt w3) (flat g2) wB _ _ B1 B4 N5C ltac:(intros o Ho; apply Hmt; apply in_or_app; right; rewrite <- marks_flat; apply in_marks; exact Ho)) as (C1 & C2 & C3 & C4 & C5 & C6 & C7). cbn zeta in *.
   assert (Efold : fold_left undo_entry (flat gu) w3 = fold_left undo_entry (flat g2) wB).
   { rewrite Efg. change (map ESent mm ++ EProc m :: flat g2) with (map ESent mm ++ [EProc m] ++ flat g2). rewrite !fold_left_app_undo. reflexivity. }
   rewrite Efold. set (wC := fold_left undo_entry (flat g2) wB) in *.
@@ -1023,12 +1026,14 @@ Proof.
                Mk0 (k_flags w4) (pend w4) (allmarks (k_lps w4)) /\ (forall L0, No5 f3 L0 -> No5 (k_flags w4) L0) /\ all_ok2 p w4).
   { rewrite Ew4. destruct strag.
     - change ((ms, im) :: gk ++ gu) with (((ms, im) :: gk) ++ gu) in Ehist.
+      assert (Eg3 : k_gvt w3 = 0%Z) by (change (k_gvt w3) with (k_gvt w1); rewrite Eg; exact Hg).
       destruct (rollback_sets w3 l [m] ((ms, im) :: gk) gu Ok3 Hl3 Ehist) as (Q1 & Q2 & Q3 & Q4 & Q5 & Q6 & Q7 & Q8 & Q9 & Q10 & Q11 & Q12 & Q13).
       + fold x. rewrite Ebase. cbn [fst]. rewrite flat_cons, app_length, map_length. cbn. lia.
-      + exact HL3'.
+      + rewrite Eg3. exact HL3'.
       + exact M03.
       + intros y Hy. apply N53. apply in_map_iff in Hy. destruct Hy as (g & <- & Hgg). apply Hpin. apply in_or_app. right. exact Hgg.
-      + cbn zeta in *. repeat (split; [assumption|]). apply do_rollback_ok2; [exact Ok3|]. intros _. fold x. rewrite Ehist. apply bnd_flat_prefix.
+      + intros o _. rewrite Eg3. lia.
+      + cbn zeta in *. rewrite Eg3 in Q9. repeat (split; [assumption|]). apply do_rollback_ok2; [exact Ok3|]. intros _. fold x. rewrite Ehist. apply bnd_flat_prefix.
     - rewrite (Hnos eq_refl) in *. rewrite app_nil_r in Ehist. split; [exact Ehist|]. split; [reflexivity|]. do 6 (split; [reflexivity|]).
       split; [exact HL3'|]. split; [intros y; cbn [map In]; tauto|]. split; [intros i; cbn [flat_map map In]; tauto|]. split; [exact M03|]. split; [intros L0 H; exact H|exact Ok3]. }
   destruct H4 as (Q1 & Q2 & Q3 & Q4 & Q5 & Q6 & Q7 & Q8 & Q9 & Q10 & Q11 & Q12 & Q13 & Ok4).
@@ -1241,10 +1246,12 @@ Proof.
   assert (HL3' : Loc 0 (k_flags w3) (pend w3) (allprocs (k_lps w3)) (allmarks (k_lps w3)) (k_next w3)).
   { change (k_flags w3) with f3. change (pend w3) with (pend w1). change (k_lps w3) with (k_lps w1). change (k_next w3) with (k_next w1). rewrite El, En. exact HL3. }
   change ((ms, im) :: gk ++ (mm, m) :: g2) with (((ms, im) :: gk) ++ (mm, m) :: g2) in Ehist.
+  assert (Eg3 : k_gvt w3 = 0%Z) by (change (k_gvt w3) with (k_gvt w1); rewrite Eg; exact Hg).
   destruct (cancel_sets w3 l ((ms, im) :: gk) mm m g2 Ok3 Hl3 Ehist) as (Q1 & Q2 & Q3 & Q4 & Q5 & Q6 & Q7 & Q8 & Q10 & Q11 & Q12 & Q13).
   { fold x. rewrite Ebase. cbn [fst]. rewrite flat_cons, app_length, map_length. cbn. lia. }
-  { exact HL3'. } { exact M03. } { exact Hf3m. }
+  { rewrite Eg3. exact HL3'. } { exact M03. } { exact Hf3m. }
   { intros y Hy. apply in_map_iff in Hy. destruct Hy as (g & <- & Hgg). apply N53; [apply Hpin; apply in_or_app; right; right; exact Hgg|apply HnotIn; apply in_or_app; right; exact Hgg]. }
+  { intros o _. rewrite Eg3. lia. }
   cbn zeta in *. rewrite <- Ek in Q1, Q2, Q3, Q4, Q5, Q6, Q7, Q8, Q10, Q11, Q12, Q13. fold w4 in Q1, Q2, Q3, Q4, Q5, Q6, Q7, Q8, Q10, Q11, Q12, Q13.
   assert (Hl4 : l < length (k_lps w4)) by (rewrite Q5; exact Hl3).
   destruct (put_same_hist w4 l (fix_bound (get_lp w4 l)) Hl4 (fix_bound_hist _)) as [Epp Emm].
